@@ -22,6 +22,7 @@ import importlib
 import json
 import multiprocessing
 import os
+import re
 import shutil
 import sys
 import time
@@ -176,6 +177,68 @@ class Ctx(object):
         except hypothesis.errors.Unsatisfiable as e:
             raise HarnessError('generator unsatisfiable in %s: %s' % (name, e))
 
+    def fuzz(self, strategy, runs, name='fuzz', instrument=('giscanner',), max_len=16384):
+        """Coverage-guided campaign: libFuzzer (atheris) mutates the byte stream that Hypothesis turns into a
+        case of `strategy` (hypothesis `fuzz_one_input`), with the Python functions of the modules named in
+        `instrument` instrumented for edge coverage. The same check_case oracle runs on every case. libFuzzer
+        never returns, so the campaign runs in a forked child that reports through files; its counts, labels,
+        samples and (unshrunk) failing cases are merged into this context. Returns the statistics dict."""
+        base = os.path.join(self.mkscratch(), 'fuzz-%s' % name)
+        shutil.rmtree(base, ignore_errors=True)
+        os.makedirs(os.path.join(base, 'corpus'))
+        # starting corpus: a few pseudo-random buffers derived from the shard seed (an empty corpus starves the
+        # Hypothesis byte-stream parser: short inputs are rejected as "overrun" before any case is built)
+        for i, size in enumerate((64, 256, 1024, 4096, 4096, 8192)):
+            blob = b''
+            k = 0
+            while len(blob) < size:
+                blob += hashlib.sha256(('%d/%d/%d' % (self.seed, i, k)).encode()).digest()
+                k += 1
+            with open(os.path.join(base, 'corpus', 'seed-%d' % i), 'wb') as f:
+                f.write(blob[:size])
+        statf = os.path.join(base, 'stats.json')
+        logf = os.path.join(base, 'libfuzzer.log')
+        pid = os.fork()
+        if pid == 0:
+            code = 1
+            try:
+                _fuzz_child(self, strategy, runs, base, statf, logf, instrument, max_len)
+                code = 0
+            except BaseException:  # noqa
+                try:
+                    with open(os.path.join(base, 'child-error.txt'), 'w') as f:
+                        f.write(traceback.format_exc())
+                except Exception:
+                    pass
+            finally:
+                os._exit(code)
+        _, status = os.waitpid(pid, 0)
+        if os.path.exists(os.path.join(base, 'child-error.txt')):
+            raise HarnessError('fuzz child failed: ' + open(os.path.join(base, 'child-error.txt')).read()[-1500:])
+        if not os.path.exists(statf):
+            raise HarnessError('fuzz campaign %s left no statistics (exit status %r): %s'
+                               % (name, status, open(logf).read()[-800:] if os.path.exists(logf) else ''))
+        st = json.load(open(statf))
+        r = st['result']
+        self.evals += r['evals']
+        self.discards += r['discards']
+        self.excluded_known += r['excluded_known']
+        self.nontrivial.update(r['nontrivial'])
+        for k, v in r['labels'].items():
+            self.labels[k] += v
+        for smp in r['samples']:
+            self.sample(smp)
+        self.failures.extend(r['failures'])
+        log = open(logf, errors='replace').read() if os.path.exists(logf) else ''
+        cov = re.findall(r'cov: (\d+) ft: (\d+) corp: (\d+)', log)
+        stats = {'campaign': name, 'engine': 'atheris/libFuzzer over hypothesis.fuzz_one_input', 'runs_requested': runs,
+                 'inputs_fed': st['fed'], 'cases_evaluated': r['evals'], 'failing_cases': len(r['failures']),
+                 'edge_coverage': int(cov[-1][0]) if cov else None, 'features': int(cov[-1][1]) if cov else None,
+                 'corpus': int(cov[-1][2]) if cov else None, 'finished': 'Done ' in log}
+        self.extra.setdefault('fuzz_campaigns', []).append(stats)
+        self.labels['fuzz-evaluated'] += r['evals']
+        return stats
+
     def result(self):
         return {
             'shard': self.shard, 'spec': self.spec, 'seed': self.seed,
@@ -185,6 +248,78 @@ class Ctx(object):
             'labels': dict(self.labels), 'samples': self.samples,
             'failures': self.failures, 'extra': self.extra,
         }
+
+
+def _fuzz_child(parent, strategy, runs, base, statf, logf, instrument, max_len):
+    """Body of the forked fuzz process (never returns normally: libFuzzer exits the process)."""
+    import types
+    deps = os.path.join(VERIF, '.deps')
+    if deps not in sys.path:
+        sys.path.insert(0, deps)
+    import atheris
+    from hypothesis import given, settings, HealthCheck, Phase
+    # instrument the already imported functions of the code under test (bytecode is patched in place)
+    seen = set()
+
+    def instr(fn):
+        code = getattr(fn, '__code__', None)
+        if code is None or id(fn) in seen:
+            return
+        seen.add(id(fn))
+        try:
+            atheris.instrument_func(fn)
+        except Exception:
+            pass
+    for mname, m in list(sys.modules.items()):
+        if m is None or not any(mname == p or mname.startswith(p + '.') for p in instrument):
+            continue
+        if not getattr(m, '__file__', None) or not str(m.__file__).endswith('.py'):
+            continue
+        for obj in list(vars(m).values()):
+            if isinstance(obj, types.FunctionType) and obj.__module__ == mname:
+                instr(obj)
+            elif isinstance(obj, type) and obj.__module__ == mname:
+                for v in list(vars(obj).values()):
+                    f = v.__func__ if isinstance(v, (staticmethod, classmethod)) else v
+                    if isinstance(f, types.FunctionType):
+                        instr(f)
+    ctx = Ctx(parent.mod, parent.tier, parent.base_seed, parent.shard, parent.spec)
+    ctx.scratch = os.path.join(base, 'scratch')
+    state = {'fed': 0, 'written': 0}
+
+    def dump():
+        res = ctx.result()
+        res['failures'] = res['failures'][:25]
+        tmp = statf + '.tmp'
+        with open(tmp, 'w') as f:
+            json.dump({'fed': state['fed'], 'result': res}, f, default=repr)
+        os.replace(tmp, statf)
+
+    @settings(database=None, deadline=None, suppress_health_check=list(HealthCheck), phases=[Phase.generate],
+              print_blob=False, report_multiple_bugs=False)
+    @given(strategy)
+    def prop(case):
+        known_clauses = set(f['clause'] for f in ctx.failures)
+        n = len(ctx.failures)
+        ctx.run_case(case, reraise=False)
+        if len(ctx.failures) > n and ctx.failures[-1]['clause'] in known_clauses:
+            ctx.failures.pop()          # one (unshrunk) witness per clause is enough
+
+    fuzz_one = prop.hypothesis.fuzz_one_input
+
+    def one(data):
+        state['fed'] += 1
+        fuzz_one(data)
+        if state['fed'] % 200 == 0 or state['fed'] >= runs:
+            dump()
+
+    dump()
+    fd = os.open(logf, os.O_WRONLY | os.O_CREAT | os.O_TRUNC, 0o644)
+    os.dup2(fd, 2)
+    argv = ['fuzz', '-runs=%d' % runs, '-seed=%d' % (parent.seed % (2 ** 31 - 1) or 1), '-max_len=%d' % max_len,
+            '-verbosity=1', '-print_final_stats=1', '-len_control=0', os.path.join(base, 'corpus')]
+    atheris.Setup(argv, one)
+    atheris.Fuzz()
 
 
 # ---------------------------------------------------------------------------
